@@ -16,7 +16,7 @@ else git apply $SRC/patch.diff; fi
 git diff > /tmp/confirm/$NAME.patch
 mut_rc=$(run_demo mut)
 if [ "$clean_rc" != "0" ] || [ "$mut_rc" = "0" ]; then echo "$NAME: demo clean_rc=$clean_rc mut_rc=$mut_rc (need 0 / non-zero)"; cleanup; exit 4; fi
-suite=$(/verif/tools/baseline.sh $W | head -1)
+suite=$(/verif/tools/baseline.sh $W 2>/dev/null | grep "^baseline:")
 case "$suite" in *"missing=0"*) ;; *) echo "$NAME: suite changed: $suite"; cleanup; exit 5;; esac
 mkdir -p /verif/seeded/$NAME
 cp /tmp/confirm/$NAME.patch /verif/seeded/$NAME/patch.diff
